@@ -228,6 +228,12 @@ func (r *recorder) hook(ev string, kv ...any) {
 			n = g.n
 		}
 		ids := r.intern(strs(m["ids"]))
+		if !found {
+			// nothing left the queue. The queue object may be one that is no longer the key's queue (a watchdog that fires
+			// late holds the object it was created with; a lock that prunes empty queues has replaced it by then), so the
+			// content reported for it says nothing about the key: log the key's queue as it stands.
+			ids = append([]int{}, r.lastIDs[k]...)
+		}
 		r.w.Emit(map[string]any{"ev": "rem", "cause": cause, "p": pname, "k": k, "id": n, "found": b2i(found), "ids": ids})
 		r.lastIDs[k] = ids
 		r.flush()
@@ -740,11 +746,23 @@ func runReplayTest(ti int, steps []step, tw *trace.Writer) replayResult {
 			gi := rec.ids[p.retID]
 			rec.mu.Unlock()
 			g.ch <- struct{}{}
+			// the watchdog removes the grant (gone) - or ends without doing so, which the next rest line will show
+			if !waitFlag(func() bool {
+				select {
+				case <-gi.gone:
+					return true
+				default:
+				}
+				rec.mu.Lock()
+				defer rec.mu.Unlock()
+				return rec.wdExited[p.retID]
+			}, stepTimeout) {
+				res.Infra = "watchdog neither removed its grant nor ended"
+			}
 			select {
 			case <-gi.gone:
 				p.holding.Store(false)
-			case <-time.After(stepTimeout):
-				res.Infra = "watchdog remove never happened"
+			default:
 			}
 		default:
 			stop = "unknown action " + a.A
